@@ -491,12 +491,18 @@ def _parse_header(line):
     return m.group(1), [], '?'
 
 
+STATIC_ALLOCS = {}      # allocN -> name of the static it is (from the allocation dumps after the bodies)
+
+
 def parse_mir(text):
     """Return dict name -> [Body] (several bodies may share a name: CTFE duplicates)."""
     bodies = {}
     lines = text.split('\n')
     i, n = 0, len(lines)
     ctfe_next = False
+    STATIC_ALLOCS.clear()
+    for m in re.finditer(r'(?m)^(alloc\d+) \(static: ([\w:]+)', text):
+        STATIC_ALLOCS[m.group(1)] = m.group(2)
     while i < n:
         line = lines[i]
         if line.startswith('// MIR FOR CTFE'):
